@@ -234,6 +234,40 @@ def gen_reservoir():
                          body=[ast.Return(value=expr)], decorator_list=[], lineno=1, col_offset=0)
     ast.fix_missing_locations(fn)
     P.Tr(m, fn, emit_name="flux_rate_row").translate()
+    # ... and the whole flux branch of recovery_factor, with the three leading columns of the stored field as parameters:
+    #   h_inv = self.nx - 1.0 ; rate = stencil(pp[:, 0..2]) ; cumulative = cumulative_trapezoid(rate, self.time, initial=0) ;
+    #   self.recovery = cumulative * self.fvf_scale()
+    hinv = [n for n in rf.body if isinstance(n, ast.Assign) and ast.unparse(n.targets[0]) == "h_inv"]
+    dens_if = [n for n in rf.body if isinstance(n, ast.If) and ast.unparse(n.test) == "density"]
+    store = [n for n in rf.body if isinstance(n, ast.Assign) and ast.unparse(n.targets[0]) == "self.recovery"]
+    if not (len(hinv) == 1 and len(dens_if) == 1 and len(store) == 1):
+        raise P.Untranslatable("recovery_factor: unexpected structure (h_inv / if density / self.recovery)")
+
+    class Flux(ast.NodeTransformer):
+        def visit_Subscript(self, node):
+            txt = ast.unparse(node).replace(" ", "")
+            mm = __import__("re").fullmatch(r"pp\[:,(\d)\]", txt)
+            if mm:
+                return ast.copy_location(ast.Name(id=f"u{mm.group(1)}", ctx=ast.Load()), node)
+            return self.generic_visit(node)
+
+        def visit_Attribute(self, node):
+            d = ast.unparse(node)
+            ren = {"self.nx": "nx", "self.time": "time", "self.recovery": "recovery"}
+            if d in ren:
+                return ast.copy_location(ast.Name(id=ren[d], ctx=node.ctx), node)
+            return self.generic_visit(node)
+
+        def visit_Call(self, node):
+            if ast.unparse(node) == "self.fvf_scale()":
+                return ast.copy_location(ast.Name(id="fvf", ctx=ast.Load()), node)
+            return self.generic_visit(node)
+    stmts = [copy.deepcopy(hinv[0])] + [copy.deepcopy(n) for n in dens_if[0].orelse if not ast.unparse(n).startswith("pp =")] + [copy.deepcopy(store[0])]
+    stmts = [Flux().visit(n) for n in stmts] + [ast.parse("return recovery").body[0]]
+    fn = ast.FunctionDef(name="recovery_flux_cols", args=ast.arguments(posonlyargs=[], args=[ast.arg(arg=a) for a in ("u0", "u1", "u2", "time", "nx", "fvf")], kwonlyargs=[], kw_defaults=[], defaults=[]),
+                         body=stmts, decorator_list=[], lineno=rf.lineno, col_offset=0)
+    ast.fix_missing_locations(fn)
+    P.Tr(m, fn, emit_name="recovery_flux_cols", kinds={"u0": "list", "u1": "list", "u2": "list", "time": "list"}).translate()
     return m
 
 
